@@ -68,14 +68,39 @@ def colour_doc(r, palette, kind=None):
     return spec
 
 
+def _alias_groups():
+    """Names of the colour table that share one RGB value (white / gray100 / grey100, azure / azure1, ...)."""
+    import collections
+
+    by = collections.defaultdict(list)
+    for c in color_table:
+        by[tuple(c[2:5])].append(c[0])
+    return [v for v in by.values() if len(v) > 1]
+
+
+ALIASES = _alias_groups()
+# colours whose alphabetical order differs from their order in the master table
+ORDER_TRAPS = [["white", "aliceblue", "black"], ["gray9", "gray10", "gray100"], ["yellow", "blue", "antiquewhite"]]
+
+
 def generate(g, i):
     r = g.r
+    if i < 24:
+        # directed palettes: same-RGB aliases used side by side, and names whose alphabetical and master orders differ
+        if i % 2 == 0:
+            grp = ALIASES[(i // 2 * 13) % len(ALIASES)]
+            palette = list(grp) + r.sample(NAMES, 2)
+        else:
+            palette = ORDER_TRAPS[(i // 2) % len(ORDER_TRAPS)] + r.sample(NAMES, 1)
+        return colour_doc(r, palette, kind=["single", "multi", "figure"][i % 3])
     palette = r.sample(NAMES, r.randint(1, 8))
+    if r.random() < 0.15:
+        palette += r.choice(ALIASES)
     return colour_doc(r, palette)
 
 
 def run(ctx):
-    res = common.run_docprop(ctx, "c12", generate, None, n_quick=150, n_thorough=1200,
+    res = common.run_docprop(ctx, "c12", generate, None, n_quick=170, n_thorough=1200,
                              nontrivial=lambda rec: int((rec["result"] or {}).get("nuses", "0")) > 0)
     if ctx.get("replay") or ctx["tier"] != "thorough":
         return res
